@@ -120,6 +120,8 @@ EDITS = {
         ("uv02", RT + "vm.rs", "                        *upv = UpValue::Closed(ov_raw.to_vec(), is_closure);\n                        is_closure.then_some(ov_raw[0])", "                        *upv = UpValue::Closed(ov_raw.to_vec(), is_closure);\n                        Some(ov_raw[0])", "verus", "upvalues"),
         ("uv03", RT + "vm.rs", "                        UpValue::Closed(data, true) => Some(data[0]),", "                        UpValue::Closed(data, _) => Some(data[0]),", "verus", "upvalues"),
         ("uv04", RT + "vm.rs", "                        *upv = UpValue::Closed(ov_raw.to_vec(), is_closure);", "                        *upv = UpValue::Closed(ov_raw.to_vec(), false);", "verus", "upvalues"),
+        ("ch01", "crates/lib/mimium-lang/src/runtime/vm.rs", "                        self.close_heap_upvalues(heap_idx);\n                    } else if let Some(closure_idx) = self.try_get_direct_closure(heap_addr) {", "                        self.close_heap_upvalues(heap_idx);\n                        heap::heap_release(&mut self.heap, heap_idx);\n                    } else if let Some(closure_idx) = self.try_get_direct_closure(heap_addr) {", "verus", "closures"),
+        ("ch02", "crates/lib/mimium-lang/src/runtime/vm.rs", "                let closure_idx = Self::get_as::<ClosureIdx>(heap_obj.data[0]);\n                // Close upvalues directly by ClosureIdx without corrupting the stack\n                self.close_upvalues_by_idx(closure_idx);", "                let closure_idx = Self::get_as::<ClosureIdx>(heap_obj.data[0]);\n                // Close upvalues directly by ClosureIdx without corrupting the stack\n                self.close_upvalues_by_idx(closure_idx);\n                self.close_upvalues_by_idx(closure_idx);", "verus", "closures"),
         ("rt01", "crates/lib/mimium-lang/src/runtime/vm.rs", "                    let _ = self.return_general(iret, nret);\n                    self.release_open_closures(&local_closures);\n", "                    let _ = self.return_general(iret, nret);\n", "verus", "closures"),
         ("rt02", "crates/lib/mimium-lang/src/runtime/vm.rs", "                    self.release_open_closures(&local_closures);\n                    self.release_heap_closures(&local_heap_closures);\n                    return 0;", "                    self.release_heap_closures(&local_heap_closures);\n                    self.release_open_closures(&local_closures);\n                    return 0;", "verus", "closures"),
         ("bl01", "crates/lib/mimium-lang/src/runtime/vm.rs", "                    heap_obj.data[..inner_size as usize].copy_from_slice(&data);", "                    heap_obj.data[..inner_size as usize].copy_from_slice(&data);\n                    heap_obj.refcount = 1;", "verus", "closures"),
